@@ -906,10 +906,12 @@ func TestVerifC04Batcher(t *testing.T) {
 			for _, mx := range vals {
 				c := &BatchConfig{FlushTimeout: time.Duration(ft), MinSize: mn, MaxSize: mx}
 				ok := c.Validate() == nil
-				out.Case(ok, fmt.Sprintf("(CCfg %s %s %s %v)%%Z", vZ(ft), vZ(mn), vZ(mx), ok))
+				cfgTerm := fmt.Sprintf("(CCfg %s %s %s %v)%%Z", vZ(ft), vZ(mn), vZ(mx), ok)
+				out.Case(ok, cfgTerm)
 				ref := ft > 0 && mn >= 0 && mx >= 0 && !(mx > 0 && mx < mn)
 				if ok != ref {
-					out.Oracle("batch-config-validate", c04NoCase, fmt.Sprintf("ft=%d min=%d max=%d valid=%v", ft, mn, mx, ok))
+					// the failing input of a broken Validate obligation: the argument on which the code now differs
+					out.Oracle("batch-config-validate", cfgTerm, fmt.Sprintf("ft=%d min=%d max=%d valid=%v", ft, mn, mx, ok))
 				}
 			}
 		}
